@@ -105,7 +105,7 @@ def standard_check(plugin, tier, seed, replay=None):
     # ---- 3. implementation ----------------------------------------------
     target_dir = getattr(plugin, "TARGET_DIR", None) or core.TARGET      # a plugin with its own crate may name its own target dir
     hok, hlog = core.build_harness(crate, target=target_dir) if target_dir != core.TARGET else core.build_harness(crate)
-    harness_exe = os.path.join(target_dir, "debug", getattr(plugin, "BIN", "mvh"))
+    harness_exe = os.path.join(core.alt_target(target_dir), "debug", getattr(plugin, "BIN", "mvh"))
 
     cov = dict(evaluations=0, distinct_nontrivial=0, rule=getattr(plugin, "RULE", ""), samples=[],
                traces_validated_against_impl=0, binding_ok=0, advisory=0, known_finding_hits={},
